@@ -212,15 +212,15 @@ func canonOption(o ast.Option) string {
 }
 
 type c17Monitor struct {
-	r        *Run
-	pkgRules map[string][]venRule // kept in file order
-	bRules   []venRule
-	oRules   []venRule
-	before   []ast.Builder // deep snapshot taken at the "before" event
+	r           *Run
+	pkgRules    map[string][]venRule // kept in file order
+	bRules      []venRule
+	oRules      []venRule
+	before      []ast.Builder // deep snapshot taken at the "before" event
 	beforeCanon []string
-	ctx      string
-	replay   map[string]any
-	events   int
+	ctx         string
+	replay      map[string]any
+	events      int
 }
 
 func snapshotBuilders(bs []ast.Builder) []ast.Builder {
